@@ -315,6 +315,12 @@ func replayCase(sub string, raw json.RawMessage) string {
 			return m
 		}
 		return checkCustom(c).msg
+	case "history":
+		var c historyCase
+		if m := un(&c); m != "" {
+			return m
+		}
+		return checkHistory(c).msg
 	case "builtins":
 		var c customCase
 		if m := un(&c); m != "" {
@@ -346,6 +352,7 @@ func TestC19(t *testing.T) {
 	runVars(t)
 	runInput(t)
 	runCustom(t)
+	runHistory(t)
 	runAmbient(t)
 }
 
@@ -353,7 +360,7 @@ func jsonMarshal(v any) ([]byte, error) { return json.Marshal(v) }
 
 // sample spreads the shards' sample reservoirs over the sub-checks: shard i
 // samples only the sub-check i mod 6.
-var sampleSubs = []string{"custom", "ambient", "input", "vars", "deny", "environ"}
+var sampleSubs = []string{"custom", "ambient", "input", "vars", "deny", "environ", "history"}
 
 func sample(sub string, v any) {
 	if sampleSubs[rec.Shard%len(sampleSubs)] == sub {
